@@ -351,7 +351,7 @@ class Contract:
                  inline=(), inline_only=False, slice=None, class_attrs=None, writes=(), note="", shape_bound=4,
                  native=None, name=None, self_spec=None, max_shapes=60, crosscheck=True, refute=True, assumed=False,
                  native_call=None, cases_filter=None, gen=None, native_ok=True, compare_native=None, slice_note=None,
-                 not_decided=(), lemmas=None):
+                 not_decided=(), lemmas=None, ghost_after=None):
         self.target = target
         self.props = list(props)
         self.params = dict(params or {})
@@ -381,6 +381,7 @@ class Contract:
         self.name_is_alias = False
         self.not_decided = list(not_decided)
         self.lemmas = dict(lemmas or {})
+        self.ghost_after = dict(ghost_after or {})
         self.name = name or target
         self.short = (name or target.split("::", 1)[1])
         REGISTRY[self.name] = self
